@@ -791,6 +791,13 @@ def x_clock_now(eng, st, a):
     return t
 
 
+@ext('vs_setclock')
+def x_vs_setclock(eng, st, a):
+    if type(a[0]) is not int:
+        raise EngineError('vs_setclock: symbolic instant')
+    st.ext['clock'] = a[0]
+
+
 @ext('time')
 def x_time(eng, st, a):
     t = st.ext.get('clock', 1700000000 * 10**9) // 10**9
